@@ -10,6 +10,8 @@
 import StathamModel.Py.Module
 import StathamModel.Props.C11
 import StathamModel.Props.C18
+import StathamModel.Lemmas.ReprNames
+import StathamModel.Lemmas.AnnotNames
 import StathamModel.Tie
 namespace Statham.C02
 open Statham
@@ -98,6 +100,149 @@ theorem C02_class_keywords (e : Elem) (name : String) (x : PyExpr) (h : (name, x
     rw [hk] at hpe
     simp only [Option.map_some, Option.some.injEq, Prod.mk.injEq] at hpe
     rw [← hpe.1, hk, hpe.2]
+
+/-! ### every name the module refers to is imported or is a class the referring class depends on -/
+
+theorem contains_of_mem {l : List String} {n : String} (h : n ∈ l) : l.contains n = true := by
+  simpa using h
+
+/-- **The module uses only what it imports or declares.**  For every class statement of the generated module and
+    every name its source refers to — base class, class keywords, annotations and property expressions — the name
+    is one of the imported typing words, `Maybe` / `Property` with the corresponding import present, an imported
+    element class, or the name of a model class among the descendants of the class being declared (and those are
+    declared earlier: `C02_dependencies_first`). -/
+theorem C02_names_resolved (els : List Elem) (m : PyModule) (h : emitModule els = .ok m)
+    (hok : ∀ c ∈ objectClasses els, ArraysOK c) :
+    ∀ cd ∈ m.classes, ∀ n ∈ cd.names,
+      n ∈ m.typing ∨ (n = "Maybe" ∧ m.maybe = true) ∨ (n = "Property" ∧ m.property = true) ∨ n ∈ m.elements ∨
+      ∃ c ∈ objectClasses els, objName c.cls = cd.name ∧ n ∈ directClasses c := by
+  unfold emitModule at h
+  cases ho : ordererTree els with
+  | error e => rw [ho] at h; cases h
+  | ok order =>
+    rw [ho] at h
+    simp only [Except.ok.injEq] at h
+    subst h
+    intro cd hcd n hn
+    simp only at hcd hn ⊢
+    -- the class element this statement was printed from
+    obtain ⟨nm, _, hfm⟩ := List.mem_filterMap.mp hcd
+    cases hf : (objectClasses els).find? (fun c => objName c.cls == nm) with
+    | none => rw [hf] at hfm; cases hfm
+    | some c =>
+      rw [hf] at hfm
+      simp only [Option.map_some, Option.some.injEq] at hfm
+      subst hfm
+      have hc : c ∈ objectClasses els := List.mem_of_find?_eq_some hf
+      have hcls : isObjectClass c.cls = true := (List.mem_filter.mp hc).2
+      have hcall : c ∈ els ++ (els.map descendants).flatten := (List.mem_filter.mp hc).1
+      -- all names of all class statements
+      have hall : n ∈ ((order.filterMap fun n => ((objectClasses els).find? fun c => objName c.cls == n).map classDef).map
+          ClassDef.names).flatten :=
+        List.mem_flatten.mpr ⟨_, List.mem_map.mpr ⟨classDef c, hcd, rfl⟩, hn⟩
+      generalize ((order.filterMap fun n => ((objectClasses els).find? fun c => objName c.cls == n).map classDef).map
+          ClassDef.names).flatten = allNames at hall ⊢
+      -- descendants of c are among everything the import scan sees
+      have hdesc : ∀ d ∈ descendants c, d ∈ els ++ (els.map descendants).flatten := by
+        intro d hd
+        rcases List.mem_append.mp hcall with hce | hce
+        · exact List.mem_append_right _ (List.mem_flatten.mpr ⟨_, List.mem_map.mpr ⟨c, hce, rfl⟩, hd⟩)
+        · obtain ⟨l, hl, hcl⟩ := List.mem_flatten.mp hce
+          obtain ⟨r, hr, rfl⟩ := List.mem_map.mp hl
+          exact List.mem_append_right _ (List.mem_flatten.mpr ⟨_, List.mem_map.mpr ⟨r, hr, rfl⟩, desc_trans r c hcl d hd⟩)
+      -- a printed name of a descendant is an imported element class or a class the statement depends on
+      have of_desc : ∀ d ∈ descendants c, printedName d = n →
+          n ∈ sortDedupe ((els ++ (els.map descendants).flatten).map importName) ∨
+          ∃ c' ∈ objectClasses els, objName c'.cls = (classDef c).name ∧ n ∈ directClasses c' := by
+        intro d hd hpn
+        by_cases hdc : isObjectClass d.cls = true
+        · refine Or.inr ⟨c, hc, rfl, ?_⟩
+          unfold directClasses
+          refine List.mem_map.mpr ⟨d, List.mem_filter.mpr ⟨hd, hdc⟩, ?_⟩
+          rw [← hpn]
+          cases hdd : d.cls <;> simp [hdd, isObjectClass] at hdc ⊢
+          simp [printedName, hdd, pyClassName, objName]
+        · refine Or.inl (mem_sortDedupe.mpr (List.mem_map.mpr ⟨d, hdesc d hd, ?_⟩))
+          rw [← hpn]
+          unfold importName printedName
+          cases hdd : d.cls <;> simp [hdd, isObjectClass] at hdc ⊢
+      have of_allowed : Allowed (descendants c) n →
+          (n = "Property" ∧ allNames.contains "Property" = true) ∨ n ∈ sortDedupe ((els ++ (els.map descendants).flatten).map importName) ∨
+          ∃ c' ∈ objectClasses els, objName c'.cls = (classDef c).name ∧ n ∈ directClasses c' := by
+        intro ha
+        rcases ha with hp | ⟨d, hd, hpn⟩
+        · exact Or.inl ⟨hp, by rw [hp] at hall; exact contains_of_mem hall⟩
+        · exact Or.inr (of_desc d hd hpn)
+      -- where the name sits in the class statement
+      simp only [ClassDef.names, List.mem_cons, List.mem_append] at hn
+      rcases hn with hbase | hkw | hprops
+      · -- the base class `Object`
+        refine Or.inr (Or.inr (Or.inr (Or.inl (mem_sortDedupe.mpr (List.mem_map.mpr ⟨c, hcall, ?_⟩)))))
+        rw [hbase]
+        unfold importName classDef
+        cases hcc : c.cls <;> simp [hcc, isObjectClass] at hcls ⊢
+      · -- class keywords
+        have hk : n ∈ PyExpr.namesKw (kwargsOf Gen.sigObjectMeta c.kw (reprKidsOf c)) := by
+          have hsub : ∀ (l : List (String × PyExpr)) (p : String × PyExpr → Bool), ∀ x ∈ PyExpr.namesKw (l.filter p),
+              x ∈ PyExpr.namesKw l := by
+            intro l p
+            induction l with
+            | nil => intro x hx; simpa using hx
+            | cons a r ih =>
+              intro x hx
+              obtain ⟨an, ae⟩ := a
+              by_cases hp : p (an, ae) = true
+              · simp only [List.filter_cons, hp, if_true, PyExpr.namesKw, List.mem_append] at hx ⊢
+                rcases hx with hx | hx
+                · exact Or.inl hx
+                · exact Or.inr (ih x hx)
+              · simp only [List.filter_cons, hp, Bool.false_eq_true, if_false] at hx
+                simp only [PyExpr.namesKw, List.mem_append]
+                exact Or.inr (ih x hx)
+          exact hsub _ _ n hkw
+        rcases of_allowed (kids_allowed c (hok c hc) n (kwargsOf_names _ _ _ n hk)) with h1 | h1 | h1
+        · exact Or.inr (Or.inr (Or.inl h1))
+        · exact Or.inr (Or.inr (Or.inr (Or.inl h1)))
+        · exact Or.inr (Or.inr (Or.inr (Or.inr h1)))
+      · -- property lines
+        obtain ⟨l, hl, hnl⟩ := List.mem_flatten.mp hprops
+        obtain ⟨pl, hpl, rfl⟩ := List.mem_map.mp hl
+        simp only [classDef, List.mem_map] at hpl
+        obtain ⟨ke, hke, rfl⟩ := hpl
+        obtain ⟨k, e⟩ := ke
+        have hsubtree := prop_in_descendants c hke
+        have hok_e : ArraysOK e := arraysOK_prop (hok c hc) hke
+        simp only [List.mem_append] at hnl
+        rcases hnl with hann | hexpr
+        · -- the annotation
+          have hcore : typingWord n ∨ ClassIn (e :: descendants e) n ∨ n = "Maybe" := by
+            unfold propAnnot at hann
+            split at hann
+            · rcases annot_names e n hann with h1 | h1
+              · exact Or.inl h1
+              · exact Or.inr (Or.inl h1)
+            · simp only [PyType.names, List.mem_cons] at hann
+              rcases hann with h1 | h1
+              · exact Or.inr (Or.inr h1)
+              · rcases annot_names e n h1 with h2 | h2
+                · exact Or.inl h2
+                · exact Or.inr (Or.inl h2)
+          rcases hcore with hw | ⟨d, hd, hdc, hdn⟩ | hm
+          · refine Or.inl (List.mem_filter.mpr ⟨?_, contains_of_mem hall⟩)
+            rcases hw with rfl | rfl | rfl <;> simp
+          · refine Or.inr (Or.inr (Or.inr (Or.inr ⟨c, hc, rfl, ?_⟩)))
+            unfold directClasses
+            exact List.mem_map.mpr ⟨d, List.mem_filter.mpr ⟨hsubtree d hd, hdc⟩, hdn⟩
+          · exact Or.inr (Or.inl ⟨hm, by rw [hm] at hall; exact contains_of_mem hall⟩)
+        · -- the `Property(...)` expression
+          rw [propExpr_names] at hexpr
+          rcases List.mem_cons.mp hexpr with hp | hx
+          · exact Or.inr (Or.inr (Or.inl ⟨hp, by rw [hp] at hall; exact contains_of_mem hall⟩))
+          · rcases reprExpr_names e hok_e n hx with hp | ⟨d, hd, hpn⟩
+            · exact Or.inr (Or.inr (Or.inl ⟨hp, by rw [hp] at hall; exact contains_of_mem hall⟩))
+            · rcases of_desc d (hsubtree d hd) hpn with h1 | h1
+              · exact Or.inr (Or.inr (Or.inr (Or.inl h1)))
+              · exact Or.inr (Or.inr (Or.inr (Or.inr h1)))
 
 /-! ### evaluated in the kernel: a parent with a nested class, as the generator emits it -/
 
